@@ -60,6 +60,7 @@ func (p *pg) baseConfig(profile string) Config {
 		OWSyncsDir: openWriterSyncsDir,
 		DefaultLog: p.r.Intn(2) == 0,
 	}
+	c.PostYield = p.r.Intn(2) == 0
 	switch p.r.Intn(3) {
 	case 0:
 		c.StickNum, c.StickDen = 0, 0
